@@ -125,8 +125,88 @@ fn imp(c: &Case) -> String {
                 Err(i) => format!("err {i}"),
             }
         }
+        b"edit" => run_edit(c).0,
         _ => "?".into(),
     }
+}
+
+#[derive(Clone, Debug)]
+enum Op {
+    Upsert(gix_object::tree::EntryKind, Vec<u8>, u8),
+    Remove(Vec<u8>),
+    Write,
+}
+
+fn ops_of(fs: &[Vec<u8>]) -> Vec<Op> {
+    use gix_object::tree::EntryKind::*;
+    fs.chunks(3)
+        .take_while(|c| c.len() == 3)
+        .map(|c| {
+            let k = c[2].first().copied().unwrap_or(0);
+            match c[0].as_slice() {
+                b"r" => Op::Remove(c[1].clone()),
+                b"w" => Op::Write,
+                o => Op::Upsert(
+                    match o {
+                        b"0" => Tree,
+                        b"1" => Blob,
+                        b"2" => BlobExecutable,
+                        b"3" => Link,
+                        _ => Commit,
+                    },
+                    c[1].clone(),
+                    k,
+                ),
+            }
+        })
+        .collect()
+}
+
+/// Drive a tree::Editor over an empty root with single-component paths.
+/// Returns the transcript and the raw bytes of every tree handed to `out` (for prop()).
+fn run_edit(c: &Case) -> (String, Vec<Vec<u8>>, bool) {
+    let ops = ops_of(&c[1..]);
+    let find = gix_object::find::Never;
+    let mut ed = gix_object::tree::Editor::new(Tree::default(), &find, gix_hash::Kind::Sha1);
+    let mut items: Vec<String> = Vec::new();
+    let mut trees: Vec<Vec<u8>> = Vec::new();
+    let mut write = |ed: &mut gix_object::tree::Editor<'_>, items: &mut Vec<String>, trees: &mut Vec<Vec<u8>>| -> bool {
+        let mut bytes = Vec::new();
+        let r = ed.write(|t: &Tree| -> std::io::Result<gix_hash::ObjectId> {
+            bytes.clear();
+            t.write_to(&mut bytes)?;
+            Ok(gix_object::compute_hash(gix_hash::Kind::Sha1, gix_object::Kind::Tree, &bytes))
+        });
+        match r {
+            Ok(_) => {
+                items.push(format!("ok {}", hexs(&bytes)));
+                trees.push(bytes);
+                true
+            }
+            Err(_) => {
+                items.push("err Nul".into());
+                false
+            }
+        }
+    };
+    for op in &ops {
+        let ok = match op {
+            Op::Upsert(kind, name, k) => ed.upsert(Some(name.as_bstr()), *kind, oid(*k)).is_ok(),
+            Op::Remove(name) => ed.remove(Some(name.as_bstr())).is_ok(),
+            Op::Write => {
+                if !write(&mut ed, &mut items, &mut trees) {
+                    return (items.join(";"), trees, false);
+                }
+                true
+            }
+        };
+        if !ok {
+            items.push("err Empty".into());
+            return (items.join(";"), trees, false);
+        }
+    }
+    let fin = write(&mut ed, &mut items, &mut trees);
+    (items.join(";"), trees, fin)
 }
 
 // ---------------------------------------------------------------------------------- oracle
@@ -412,6 +492,61 @@ fn prop(c: &Case) -> Verdict {
             }
         }
         b"bsearch" => Verdict::ok(false, "bsearch"),
+        b"edit" => {
+            let ops = ops_of(&c[1..]);
+            let ask_git = c.len() % 3 == 2;
+            let names_ok = ops.iter().all(|o| match o {
+                Op::Upsert(_, n, _) | Op::Remove(n) => in_domain(n) && !n.is_empty(),
+                Op::Write => true,
+            });
+            if !names_ok {
+                return Verdict::ok(false, "edit-out-of-domain");
+            }
+            // reference: a finite map name -> (mode, k); what a write must produce is the map's
+            // non-null entries ordered by slash-terminated key
+            let mut map: std::collections::BTreeMap<Vec<u8>, (u16, u8)> = Default::default();
+            let mut expected: Vec<Vec<u8>> = Vec::new();
+            let mut last: Vec<E> = Vec::new();
+            let mut snapshot = |map: &mut std::collections::BTreeMap<Vec<u8>, (u16, u8)>| {
+                map.retain(|_, v| v.1 != 0);
+                let mut es: Vec<E> = map.iter().map(|(n, (m, k))| E { mode: *m, name: n.clone(), k: *k }).collect();
+                es.sort_by(|a, b| key(a).cmp(&key(b)));
+                es
+            };
+            for op in &ops {
+                match op {
+                    Op::Upsert(kind, n, k) => {
+                        map.insert(n.clone(), (*kind as u16, *k));
+                    }
+                    Op::Remove(n) => {
+                        map.remove(n);
+                    }
+                    Op::Write => expected.push(naive_serialize(&snapshot(&mut map))),
+                }
+            }
+            last = snapshot(&mut map);
+            expected.push(naive_serialize(&last));
+            let (_, trees, fin) = run_edit(c);
+            if !fin || trees.len() != expected.len() {
+                return Verdict::fail("edit-write-failed", format!("{} of {} writes", trees.len(), expected.len()));
+            }
+            for (i, (got, want)) in trees.iter().zip(&expected).enumerate() {
+                if got != want {
+                    return Verdict::fail("edit-tree-differs", format!("write {i}: got {} want {}", hexs(got), hexs(want)));
+                }
+            }
+            if ask_git && !last.is_empty() {
+                if let Some((id, raw)) = git_mktree(&last) {
+                    let got = trees.last().expect("final write");
+                    let ours = gix_object::compute_hash(gix_hash::Kind::Sha1, gix_object::Kind::Tree, got);
+                    if &raw != got || ours.to_hex().to_string() != id {
+                        return Verdict::fail("tree-id-differs-from-git", format!("git {id} gix {ours}"));
+                    }
+                    return Verdict::ok(true, "edit-git-id");
+                }
+            }
+            Verdict::ok(ops.len() >= 2, "edit")
+        }
         _ => Verdict::ok(false, "?"),
     }
 }
@@ -522,8 +657,16 @@ fn gen_entries(rng: &mut Rng, n: usize, alpha: &[u8], allow_dup_keys: bool) -> V
     es
 }
 
+/// Insertion sort by git's comparison, written out by hand: with a '/' inside a name the comparison
+/// is not a total order and std's sort may panic ("does not correctly implement a total order").
 fn oracle_sort(es: &mut [E]) {
-    es.sort_by(|a, b| base_name_compare(&a.name, a.mode.into(), &b.name, b.mode.into()).cmp(&0));
+    for i in 1..es.len() {
+        let mut j = i;
+        while j > 0 && base_name_compare(&es[j].name, es[j].mode.into(), &es[j - 1].name, es[j - 1].mode.into()) < 0 {
+            es.swap(j, j - 1);
+            j -= 1;
+        }
+    }
 }
 
 fn gen(rng: &mut Rng, n: usize) -> Vec<Case> {
@@ -586,17 +729,54 @@ fn gen(rng: &mut Rng, n: usize) -> Vec<Case> {
             }
         }
     }
+    // editor: file <-> directory changes of one name between neighbours on both sides of '/'
+    for (k1, k2) in [(1, 0), (0, 1), (0, 4), (4, 0), (1, 2)] {
+        let mut c = vec![tag("edit")];
+        for (i, nm) in [&b"a"[..], b"a.", b"a0", b"a-", b"ab"].iter().enumerate() {
+            c.extend([num(if i == 0 { k1 } else { 1 }), nm.to_vec(), vec![i as u8 + 1]]);
+        }
+        c.extend([tag("w"), vec![], vec![]]);
+        c.extend([num(k2), b"a".to_vec(), vec![9]]);
+        c.extend([tag("w"), vec![], vec![]]);
+        c.extend([tag("r"), b"a.".to_vec(), vec![]]);
+        c.push(tag("g"));
+        out.push(c);
+    }
+    out.push(vec![tag("edit")]);
+    out.push(vec![tag("edit"), num(1), vec![], vec![1]]);
     // ---- weighted mixture
     while out.len() < n {
         let bad = rng.chance(1, 12);
         let alpha = if bad { ALPHA_BAD } else { ALPHA };
         match rng.below(100) {
-            0..=21 => {
+            0..=17 => {
                 // cmp: two related names
                 let pool = name_pool(rng, 4, alpha);
                 let a = rng.pick(&pool).clone();
                 let b = if rng.chance(1, 6) { a.clone() } else { rng.pick(&pool).clone() };
                 out.push(vec![tag("cmp"), num(gen_mode(rng)), a, num(gen_mode(rng)), b]);
+            }
+            18..=21 => {
+                // one-level editor history over a small pool of names
+                let pool = name_pool(rng, 5, alpha);
+                let n_ops = rng.range(1, 14) as usize;
+                let mut c = vec![tag("edit")];
+                for _ in 0..n_ops {
+                    let name = if rng.chance(1, 150) { vec![] } else { rng.pick(&pool).clone() };
+                    match rng.below(10) {
+                        0 | 1 => c.extend([tag("r"), name, vec![]]),
+                        2 => c.extend([tag("w"), vec![], vec![]]),
+                        _ => {
+                            let kind = if rng.chance(2, 5) { 0 } else { rng.range(1, 4) };
+                            let k = if rng.chance(1, 15) { 0 } else { 1 + rng.below(250) as u8 };
+                            c.extend([num(kind), name, vec![k]]);
+                        }
+                    }
+                }
+                if rng.chance(1, 20) {
+                    c.push(tag("g"));
+                }
+                out.push(c);
             }
             22..=54 => {
                 // sort; long lists (driftsort instead of insertion sort) only without '/'
